@@ -36,7 +36,7 @@ def sem_of(contents):
     return s
 
 
-def lone_results(sc, files, caller=None):
+def lone_results(sc, files, caller=None, via_files=()):
     """each file parsed alone in its own directory: (canonical outcome, fingerprint or None)"""
     from opcua_tools import nodeset_parser as npm
     out = {}
@@ -47,7 +47,8 @@ def lone_results(sc, files, caller=None):
         open(p, "w", encoding="utf-8").write(PR.doc_text(c, flags))
         ctl = PR.Ctl()
         with PR.Patched(ctl):
-            o, res = PR.outcome_of(lambda: npm.parse_xml(p, list(caller[name])) if name in caller else npm.parse_xml(p), ctl)
+            o, res = PR.outcome_of(lambda: npm.parse_xml(p, list(caller[name])) if name in caller else
+                                   (npm.parse_xml_files([p]) if name in via_files else npm.parse_xml(p)), ctl)
         out[name] = ({k: v for k, v in o.items() if k != "exc"}, PR.fingerprint(res) if res is not None else None)
         shutil.rmtree(d, ignore_errors=True)
     return out
@@ -64,7 +65,7 @@ def interleaved(executed):
     return False
 
 
-def run_threads(run, sc, tag, files, inputs, schedule, clear_cache, fine=False, caller=None):
+def run_threads(run, sc, tag, files, inputs, schedule, clear_cache, fine=False, caller=None, files_api=()):
     """files: name -> (c, flags); inputs: the file each thread parses"""
     from opcua_tools import nodeset_parser as npm
     from opcua_tools.value_parser import cached_parse_nodeid
@@ -80,7 +81,15 @@ def run_threads(run, sc, tag, files, inputs, schedule, clear_cache, fine=False, 
     ctl.fine = fine
     with PR.Patched(ctl):
         caller = caller or {}
-        targets = [(lambda p=os.path.join(d, nm), nm=nm: npm.parse_xml(p, list(caller[nm])) if nm in caller else npm.parse_xml(p)) for nm in inputs]
+        def target(nm, t):
+            p = os.path.join(d, nm)
+            if nm in caller:
+                return lambda: npm.parse_xml(p, list(caller[nm]))
+            if nm in files_api:
+                # the same parse through the list entry point (same protocol steps after one existence check of the input)
+                return lambda: npm.parse_xml_files([p])
+            return lambda: npm.parse_xml(p)
+        targets = [target(nm, t) for t, nm in enumerate(inputs)]
         results = sch.run(targets, schedule, ctl)
     outcomes, fps = [], []
     for t, (kind, val) in enumerate(results):
@@ -123,15 +132,20 @@ def different_files(run, sc, i):
         inputs.append(nm)
     fine = rng.random() < 0.5
     schedule = [rng.randrange(n) for _ in range((40 if fine else 12) * n)]
+    if rng.random() < 0.4:
+        # one call starts late: the others are several operations into their protocol when it begins
+        late = rng.randrange(n)
+        schedule = [t for t in schedule if t != late][: rng.randint(3, 8)] + schedule
     # caller-supplied namespace lists of different lengths: the files' local index 1 denotes a different global index in each call
     caller = {}
-    if rng.random() < 0.6:
-        for t, nm in enumerate(inputs):
+    for t, nm in enumerate(inputs):
+        if rng.random() < 0.4:
             caller[nm] = [UA] + ["urn:pad%d" % j for j in range(rng.randint(0, 2) + t)]
-    r = run_threads(run, sc, "d%d" % i, files, inputs, schedule, clear_cache=rng.random() < 0.5, fine=fine, caller=caller)
-    case = {"kind": "different files", "files": {k: list(v) for k, v in files.items()}, "caller_namespaces": caller, "executed": [[t, op] for t, op in r["executed"]]}
+    via_files = [nm for nm in inputs if nm not in caller and rng.random() < 0.5]
+    r = run_threads(run, sc, "d%d" % i, files, inputs, schedule, clear_cache=rng.random() < 0.5, fine=fine, caller=caller, files_api=via_files)
+    case = {"kind": "different files", "files": {k: list(v) for k, v in files.items()}, "caller_namespaces": caller, "via_parse_xml_files": via_files, "executed": [[t, op] for t, op in r["executed"]]}
     run.case({"files": case["files"], "executed": case["executed"]}, nontrivial=interleaved(r["executed"]), tag="threads:different" + (":fine" if fine else ""))
-    lone = lone_results(sc, files, caller)
+    lone = lone_results(sc, files, caller, via_files)
     problems = []
     for t, nm in enumerate(inputs):
         lo, lfp = lone[nm]
@@ -146,11 +160,12 @@ def different_files(run, sc, i):
     return True
 
 
+# the proved schedules, preceded by the two "begin" stops that start the calls
 WITNESSES = [
-    ("same_file_missing", [0, 0, 0, 0, 0, 1, 0, 0, 1, 1]),
-    ("same_file_half", [0, 0, 0, 0, 1, 1, 1, 1, 1]),
-    ("same_file_orphan", [0, 0, 0, 0, 1, 1, 1, 0, 0, 0]),
-    ("same_file_sequential", [0] * 9 + [1] * 9),
+    ("same_file_missing", [0, 1] + [0, 0, 0, 0, 0, 1, 0, 0, 1, 1]),
+    ("same_file_half", [0, 1] + [0, 0, 0, 0, 1, 1, 1, 1, 1]),
+    ("same_file_orphan", [0, 1] + [0, 0, 0, 0, 1, 1, 1, 0, 0, 0]),
+    ("same_file_sequential", [0, 1] + [0] * 9 + [1] * 9),
 ]
 
 
